@@ -507,17 +507,16 @@ Definition attr_has_value (a : IAttr IGraph) : bool :=
 
 (* serde.serialize_function_into; also returns the value-infos that an IR < 10 model stores in the
    main graph (serde._serialize_experimental_value_info_for_function_ir9_into) *)
-Definition ser_function (fuel : nat) (irv : Z) (f : IFunction) : res (FunctionP * list VInfoP) :=
+Definition ser_function_gen (fuel : nat) (create : bool) (irvo : option Z) (f : IFunction) : res (FunctionP * list VInfoP) :=
   let g := if_graph f in
   let vals := ig_values g in
-  let create := FUNCTION_VALUE_INFO_SUPPORTED_VERSION <=? irv in
   let qual := if_domain f ++ [58; 58]%N ++ if_name f ++ [47]%N in
   ins <- mapM (getv vals) (ig_inputs g) ;;
   attrs <- mapM (fun a => if attr_has_value a then x <- ser_attr (ser_graph fuel None) a ;; Ok [x] else Ok [])
                 (if_attrs f) ;;
   outs <- mapM (fun o => match o with OKey k => v <- getv vals k ;; Ok (v_name v) | OFresh v => Ok (v_name v) end)
                (ig_outputs g) ;;
-  nodes <- mapM (fun n => np <- ser_node (ser_graph fuel (Some irv)) (Some irv) n ;;
+  nodes <- mapM (fun n => np <- ser_node (ser_graph fuel irvo) irvo n ;;
                   vs <- mapM (fun k => match k with [] => Ok [] | _ => v <- getv vals k ;; Ok [v] end) (in_outputs n) ;;
                   Ok (np, filter should_create (concat vs))) (ig_nodes g) ;;
   let info_values := filter should_create ins ++ concat (map snd nodes) in
@@ -528,6 +527,10 @@ Definition ser_function (fuel : nat) (irv : Z) (f : IFunction) : res (FunctionP 
                   (if create then map (ser_value []) info_values else [])
                   (ksort (ig_meta g)),
       if create then [] else map (fun v => ser_value (qual ++ v_name v) v) info_values).
+
+(* inside a model: value-info in the function from IR version 10 on, nodes follow the model's IR version *)
+Definition ser_function (fuel : nat) (irv : Z) (f : IFunction) : res (FunctionP * list VInfoP) :=
+  ser_function_gen fuel (FUNCTION_VALUE_INFO_SUPPORTED_VERSION <=? irv) (Some irv) f.
 
 (* ================================================================== models *)
 Definition fkey (f : IFunction) : str * str * str := (if_domain f, if_name f, if_overload f).
@@ -640,6 +643,15 @@ Definition deser_graph_top (g : GraphP) : res IGraph := deser_graph (S (gdepth g
 Definition ser_graph_top (g : IGraph) : res GraphP := ser_graph (igdepth g) None g.
 Definition roundtrip_model (m : ModelP) : res ModelP := im <- deser_model m ;; ser_model im.
 Definition roundtrip_graph (g : GraphP) : res GraphP := ig <- deser_graph_top g ;; ser_graph_top ig.
+(* serde.deserialize_attribute / serialize_attribute (serialize_reference_attribute) on a standalone
+   AttributeProto: nested graphs are read in an empty scope stack and written without a model IR version *)
+Definition roundtrip_attr (a : AttrP GraphP) : res (AttrP GraphP) :=
+  ia <- deser_attr (deser_graph (S (attrv_depth gdepth (a_val a)))) empty_graph [] a ;;
+  ser_attr (ser_graph (iattrv_depth igdepth (ia_val ia)) None) ia.
+(* serde.deserialize_function / serialize_function(create_value_info=True) on a standalone FunctionProto *)
+Definition roundtrip_function (f : FunctionP) : res FunctionP :=
+  fn <- deser_function (S (fdepth f)) f ;;
+  q <- ser_function_gen (ifdepth fn) true None fn ;; Ok (fst q).
 Definition roundtrip_tensor (t : TensorP) : res TensorP := it <- deser_tensor t ;; Ok (ser_tensor it).
 Definition roundtrip_type (t : TypeP) : res TypeP :=
   sh <- type_shape t ;; ty <- type_type t ;; Ok (ser_type_shape ty sh).
